@@ -57,6 +57,16 @@ func checkParamSubstitution(c *Ctx) {
 	paramIndex := func(v ssa.Value) ssa.Value {
 		var idx ssa.Value
 		derivesFrom(v, 4, func(x ssa.Value) bool {
+			// "$" + strconv.Itoa(i)
+			if bo, isB := x.(*ssa.BinOp); isB && bo.Op == token.ADD {
+				if pre, isS := constString(bo.X); isS && pre == "$" {
+					if it := callValue(strip(bo.Y)); it != nil && (calleeName(&it.Call) == "strconv.Itoa" || calleeName(&it.Call) == "strconv.FormatInt") {
+						idx = strip(it.Call.Args[0])
+						return true
+					}
+				}
+				return false
+			}
 			cl, ok := x.(*ssa.Call)
 			if !ok || calleeName(&cl.Call) != "fmt.Sprintf" {
 				return false
@@ -115,6 +125,14 @@ func checkParamSubstitution(c *Ctx) {
 		c.Check("param-substitution", "$i→groups[i-1]@substituteBackendParams", ci, okOff && off == -1,
 			"the parameter $i must be replaced by the text of the i-th wildcard (groups[i-1])")
 		dir, _ := direction(idx)
+		if dir == 0 {
+			// name built from the loop index plus a constant (0-based loop, $i+1)
+			if bo, isB := idx.(*ssa.BinOp); isB {
+				if _, isK := constInt(bo.Y); isK && (bo.Op == token.ADD || bo.Op == token.SUB) {
+					dir, _ = direction(bo.X)
+				}
+			}
+		}
 		c.Check("param-substitution", "highest-index-first@substituteBackendParams", ci, dir == -1,
 			"parameters are not substituted from the highest index down: replacing $1 first also rewrites the head of $10, $11, … (the tenth and later wildcards never reach the backend address)")
 	}
